@@ -220,15 +220,20 @@ def one_run(hist, pool_names, off, inter, uni_kind='easy'):
                 escaped = ('request', e)
                 break
             kind, (summary, height) = mw.send_queues[m].items[-1]
-            req[m] = {'summary': summary, 'height': height, 'served': (node.cm.coinstate, list(node.cm.transaction_pool)),
-                      'parent': cur['head']}
+            # what the miner process gets is a COPY made at this moment (the queue pickles it); the watcher's own record of
+            # the request is whatever mining_args holds when the result comes back
+            from skepticoin.datatypes import BlockSummary
+            s0, h0, t0 = mw.mining_args[m]
+            req[m] = {'summary': BlockSummary.deserialize(summary.serialize()), 'height': height,
+                      'served': (node.cm.coinstate, list(node.cm.transaction_pool)), 'parent': cur['head'],
+                      'txs': list(t0)}
         else:
             if m not in req:
                 continue
             r = req[m]
             sh = consensus.construct_summary_hash(r['summary'], r['height'])
             before_cm_head = node.cm.coinstate.current_chain_hash
-            s_, h_, txs_ = mw.mining_args[m]
+            s_, h_, txs_ = r['summary'], r['height'], r['txs']
             from skepticoin.datatypes import Block, BlockHeader
             blk = None
             try:
